@@ -1750,16 +1750,22 @@ class SpaceUpdater(SharedSpaceOperations):
 
             mro = self._graph.get_mro(desc)
 
-            # Check name conflict between spaces, cells, refs
+            # Check name conflict between spaces, cells, refs.
+            # Cells and refs are derived from the bases, child spaces are not.
             members = {}
-            for attr in ["spaces", "cells", "refs"]:
+            for attr in ["cells", "own_refs"]:
                 namechain = []
                 for sname in mro:
-                    space = self._graph.to_space(sname)
-                    namechain.append(set(getattr(space, attr).keys()))
+                    namechain.append(
+                        set(getattr(self._graph.to_space(sname), attr).keys()))
                 members[attr] = set().union(*namechain)
+            members["spaces"] = set(
+                self._graph.to_space(desc).named_spaces.keys())
 
-            conflict = set().intersection(*[n for n in members.values()])
+            conflict = (
+                (members["cells"] & members["own_refs"])
+                | (members["cells"] & members["spaces"])
+                | (members["own_refs"] & members["spaces"]))
             if conflict:
                 raise NameError("name conflict: %s" % conflict)
 
